@@ -49,11 +49,27 @@ def t_perm_in(c, rng):
     k = rng.choice(ks)
     t = d.ins[k]
     idx = [i for i, x in enumerate(t) if unmarked_dim(x)]
-    sh = idx[:]
-    rng.shuffle(sh)
-    perm = list(range(len(t)))
-    for i, j in zip(idx, sh):
-        perm[i] = j
+    if rng.random() < 0.5:
+        # un-bracketed dimensions trade places among themselves
+        sh = idx[:]
+        rng.shuffle(sh)
+        perm = list(range(len(t)))
+        for i, j in zip(idx, sh):
+            perm[i] = j
+    else:
+        # un-bracketed dimensions move anywhere, also across bracketed ones (which keep their relative order)
+        other = [i for i in range(len(t)) if i not in idx]
+        sh = idx[:]
+        rng.shuffle(sh)
+        slots = sorted(rng.sample(range(len(t)), len(other)))
+        perm, oi, ui = [], 0, 0
+        for pos in range(len(t)):
+            if pos in slots:
+                perm.append(other[oi])
+                oi += 1
+            else:
+                perm.append(sh[ui])
+                ui += 1
     d.ins[k] = [t[p] for p in perm]
     d.arrays[k] = np.ascontiguousarray(np.transpose(d.arrays[k], perm))
     if d.family == "update_at" and k == 0:
@@ -73,11 +89,27 @@ def t_perm_out(c, rng):
     k = rng.choice(ks)
     t = d.outs[k]
     idx = [i for i, x in enumerate(t) if unmarked_dim(x)]
-    sh = idx[:]
-    rng.shuffle(sh)
-    perm = list(range(len(t)))
-    for i, j in zip(idx, sh):
-        perm[i] = j
+    if rng.random() < 0.5:
+        # un-bracketed dimensions trade places among themselves
+        sh = idx[:]
+        rng.shuffle(sh)
+        perm = list(range(len(t)))
+        for i, j in zip(idx, sh):
+            perm[i] = j
+    else:
+        # un-bracketed dimensions move anywhere, also across bracketed ones (which keep their relative order)
+        other = [i for i in range(len(t)) if i not in idx]
+        sh = idx[:]
+        rng.shuffle(sh)
+        slots = sorted(rng.sample(range(len(t)), len(other)))
+        perm, oi, ui = [], 0, 0
+        for pos in range(len(t)):
+            if pos in slots:
+                perm.append(other[oi])
+                oi += 1
+            else:
+                perm.append(sh[ui])
+                ui += 1
     d.outs[k] = [t[p] for p in perm]
     inv = list(np.argsort(perm))
 
